@@ -72,7 +72,7 @@ func (c Cfg) policies() []maintenance.RotatePolicy {
 }
 
 var (
-	durations = []float64{1, 59, 3600, 100 * 86400, 100 * 365 * 86400} // 1s 59s 1h 100d 100y
+	durations = []float64{1, 59, 3600, 91800, 129600, 360000, 100 * 86400, 100 * 365 * 86400} // 1s 59s 1h 25h30m 36h 100h 100d 100y
 	disks     = []string{"cold", "warm", "s3"}
 	ttlDays   = []int{1, 7, 365}
 	policiesL = []string{"", "tiered", "archive"}
